@@ -1,6 +1,6 @@
 CONSTANTS
   DIRS = {"enc", "dec"}
-  BS = 2
+  BS = 3
   MAXB = 5
   OBJS = {"x", "r"}
   PROP = "C09"
